@@ -268,6 +268,18 @@ def _run(ctx, pool):
             deep += [dict(mode="c09", gen=dict(head="SELECT * FROM t WHERE a = 1", rep=" AND a = 1", n=6000000)),
                      dict(mode="c09", gen=dict(head="DELETE FROM t WHERE a = 1", rep=" AND b = 2 OR a = 1", n=3500000)),
                      dict(mode="c09", gen=dict(head="SELECT * FROM t JOIN u ON a = 1", rep=" OR a = 1", n=6000000))]
+        # nesting instead of chaining: millions of opening parentheses (closed again, or left open) and of prefix operators at every
+        # place of a statement where a grammar - today's or tomorrow's - may let an expression or a table expression begin
+        nest = 3000000 if ctx.quick() else 6000000
+        for head, mid in (("SELECT * FROM t WHERE ", "a = 1"), ("SELECT * FROM t WHERE a = ", "1"), ("SELECT ", "a"), ("SELECT * FROM ", "t"),
+                          ("INSERT INTO t VALUES ", "1"), ("SELECT * FROM t JOIN u ON ", "a = 1"), ("UPDATE t SET a = ", "1"), ("", "SELECT 1")):
+            deep.append(dict(mode="c09", gen=dict(head=head, rep="(", n=nest, mid=mid, tail=")")))
+            if not ctx.quick() or head.endswith("WHERE "):
+                deep.append(dict(mode="c09", gen=dict(head=head, rep="(", n=nest, mid=mid, tail="")))
+                deep.append(dict(mode="c09", gen=dict(head=head, rep="( ", n=nest // 2, mid=mid, tail=" )")))
+        for rep in ("NOT ", "- ", "+ "):
+            deep.append(dict(mode="c09", gen=dict(head="SELECT * FROM t WHERE a = ", rep=rep, n=nest, mid="1", tail="")))
+            deep.append(dict(mode="c09", gen=dict(head="SELECT * FROM t WHERE ", rep=rep, n=nest, mid="a = 1", tail="")))
         old_to = pool.request_timeout
         pool.request_timeout = 600
         try:
